@@ -561,7 +561,7 @@ func (mru *memRepoUpload) Close() error {
 	mru.mu.Lock()
 	defer mru.mu.Unlock()
 	if mru.expect != "" && mru.d.Digest() != mru.expect {
-		return fmt.Errorf("digest mismatch, expected %s, received %s", mru.expect, mru.d.Digest())
+		return fmt.Errorf("digest mismatch, expected %s, received %s%.0w", mru.expect, mru.d.Digest(), types.ErrDigestMismatch)
 	}
 	// relocate []byte to in memory blob store
 	mru.mr.mu.Lock()
